@@ -472,7 +472,24 @@ def compare(I, op, a, b):
         try:
             return {'<': a < b, '<=': a <= b, '>': a > b, '>=': a >= b}[op]
         except TypeError:
-            raise Unsupported('tuple ordering with symbolic parts')
+            # lexicographic order with symbolic numbers: a < b  iff  some position k has a[k] < b[k] with all earlier ones equal
+            if not all(is_numlike(x) and not isinstance(x, bool) for x in a + b):
+                raise Unsupported('tuple ordering with non-numeric symbolic parts')
+            strict = op in ('<', '>')
+            lt = '<' if op in ('<', '<=') else '>'
+            disj = []
+            eqs = []
+            for x, y in zip(a, b):
+                c = compare(I, lt, x, y)
+                disj.append(z3.And(*(eqs + [zbool(c) if isinstance(c, Sym) else z3.BoolVal(bool(c))])))
+                e = equal(I, x, y)
+                eqs.append(zbool(e) if isinstance(e, Sym) else z3.BoolVal(bool(e)))
+            if len(a) != len(b):
+                shorter_first = (len(a) < len(b)) == (lt == '<')
+                disj.append(z3.And(*eqs) if shorter_first else z3.BoolVal(False))
+            elif not strict:
+                disj.append(z3.And(*eqs))
+            return mk(z3.Or(*disj), 'bool')
     I.throw('TypeError', f"'{op}' not supported between instances of {host_type_name(a)!r} and {host_type_name(b)!r}")
 
 
